@@ -842,6 +842,18 @@ async fn server_conn(cx: AppCx, conn: s2n_quic::Connection, p: Arc<Params>) {
 
 async fn server_conn_inner(cx: AppCx, conn: s2n_quic::Connection, client: EpId, plan: ClientPlan) {
     let (h, a) = conn.split();
+    if let Some(at) = plan.server_close_at_us {
+        let h = h.clone();
+        let cx2 = cx.clone();
+        spawn(async move {
+            let now = now_us();
+            if at > now {
+                delay(Duration::from_micros(at - now)).await;
+            }
+            cx2.op(SERVER, AppOp::ConnClose { code: 77 });
+            h.close(77u32.into());
+        });
+    }
     for sp in plan.server_streams.iter() {
         cx.go(client, opener(cx.clone(), SERVER, client, h.clone(), sp.clone()));
     }
